@@ -15,14 +15,24 @@ RULE = ('three kinds of case.  ctx = (table, backend, names): K.T / K.T.T == K /
         '(concept sets and cover relation), from_context(K, is_monotone=True) judged by the Lean oracles '
         'monoConcepts / monoLowerCovers and compared with the model run on the implementation\'s lattice of ~K;  '
         'perm = (table, backend, algorithm, row permutation pi, column permutation sigma): K[pi, sigma] and its '
-        'lattice vs the relabelled lattice of K.  Exhaustive over all tables up to the scope x 3 backends x 2 '
+        'lattice vs the relabelled lattice of K;  conv = (table, backend, pi, sigma): the derived contexts K.T, ~K, '
+        'K[pi,sigma], K.T.T and K itself moved to each of the 3 backends (raw data and BinTable object), judged against '
+        'the Lean Spec tables, the converted K.T also by its derivation operators and by transposing it back;  '
+        'lhist = (table, path in {default, CbO, Lindig iterate_extents True/False, unsorted concept list, read_json, '
+        'L.T.T, transposed lattice of K.T}, history of partial queries / remove+add / remove / dictionary reads / hostile '
+        'mutation of returned dictionaries): afterwards L.T must list the concepts of L with extent and intent exchanged '
+        'and its children / parents / descendants / ancestors must be the covers / strict order of the transposed table '
+        '(Lean oracle C06.order).  A big stream repeats ctx / conv / lat / perm on shapes with >= 64 cells and two-digit '
+        'indexes (8x8 ... 22x3, 64x1) on every backend with 4 algorithm variants; a history stream renames a used context '
+        'through the setters (and mutates a returned K.T) before the ctx checks.  Exhaustive over all tables up to the scope x 3 backends x 2 '
         'algorithms x all permutations, then seeded random larger tables with random permutations; non-trivial = '
         'table neither all-true nor all-false (perm: and a non-identity permutation); distinct = distinct case '
         'dict without the stream tag')
 EXHAUSTIVE = {'quick': 'all tables n,m<=3 (682) x 3 backends x {ctx with plain, "not "-prefixed and TRICKY names (valid names whose '
                        'remainder after an optional "not " starts with n/o/t/blank, rotating through the pool), all ordered '
                        'selections; lat x 2 algorithms x {"not "-prefixed, TRICKY names}; perm x 2 algorithms x all n!*m! permutations}',
-              'thorough': 'the quick scope, plus random tables up to 7x7 with random permutations'}
+              'thorough': 'the quick scope, plus random tables up to 7x7 with random permutations; 4 repetitions of the '
+                          'big shapes and more lattice histories'}
 EXPLANATION = ('K.T, ~K, K[pi,sigma], ConceptLattice.T and the monotone construction are pinned uniquely (up to the '
                'order of set-valued children) by the model, and the Lean theorems Fca.C06.* prove model = Spec for all '
                'inputs; the implementation\'s lattices (whose construction algorithm is property C02) are judged by the '
@@ -36,13 +46,42 @@ TRUSTED = ['the lattice-construction algorithms (Lindig, CbO) are not modelled h
            'ConceptLattice.T / _from_context_monotone is run on the lattice the implementation built, and that lattice is '
            'itself judged by the brute-force Lean oracle allConcepts + lowerCovers',
            'POSet parents_dict is modelled as _transpose_hierarchy(children_dict) (what POSet.__init__ caches)',
-           'zlib.adler32 (hash_fixed) is an opaque integer passed from the implementation to the model']
+           'zlib.adler32 (hash_fixed) is an opaque integer passed from the implementation to the model',
+           'POSet queries / add / remove used to build lattice histories are not modelled here (properties C09/C11); '
+           'their results are judged only through the final observation by the oracle C06.order (proved sound: order_oracles_sound)']
 CHUNK = 600
 REQUESTS_NEED_IMPL = True
 
 ALGOS = (None, 'CbO')
-OBJ = ['g%d' % i for i in range(16)]
-ATT = list('abcdefghijklmnop')
+# algorithm specs: a name understood by from_context, optionally '+ext' / '+int' = Lindig with iterate_extents True / False
+ALGOS_X = (None, 'CbO', 'Lindig+ext', 'Lindig+int')
+OBJ = ['g%d' % i for i in range(72)]
+ATT = list('abcdefghijklmnop') + ['q%d' % i for i in range(16, 72)]
+# shapes with >= 64 cells (bit-packing / word boundaries) and two-digit indexes; the first group is small enough in both
+# directions for the brute-force concept oracle (2^width subsets of the table and of its transpose)
+BIG_LAT = ((8, 8), (10, 8), (8, 10), (9, 8), (11, 6), (6, 11))
+BIG_CTX = BIG_LAT + ((13, 5), (5, 13), (16, 4), (4, 16), (22, 3), (3, 22), (64, 1), (1, 64), (33, 2), (2, 33), (9, 7), (7, 9))
+
+
+def _algo_kw(algo):
+    if algo is None or '+' not in algo:
+        return algo, {}
+    name, opt = algo.split('+')
+    return name, {'iterate_extents': opt == 'ext'}
+
+
+def _from_context(K, algo, **kw):
+    from fcapy.lattice import ConceptLattice
+    name, kw2 = _algo_kw(algo)
+    return ConceptLattice.from_context(K, algo=name, **kw2, **kw)
+
+
+def _dense_table(rng, n, m):
+    d = rng.choice((0.3, 0.5, 0.7, 0.8))
+    t = [[int(rng.random() < d) for _ in range(m)] for _ in range(n)]
+    if not G.is_mixed(t):
+        t[0][0] = 1 - t[0][0]
+    return t
 
 
 # valid names (NamesOK: none starts with "not not ") whose remainder after an optional 'not ' starts with one of the
@@ -92,7 +131,7 @@ def _history_cases(rng, tier):
     for ti, rows in enumerate(tables):
         n, m = len(rows), len(rows[0])
         for be in BACKENDS:
-            for pi_, pre in enumerate((['T'], ['CbO'], ['default'], ['not'], ['T', 'CbO'])):
+            for pi_, pre in enumerate((['T'], ['CbO'], ['default'], ['not'], ['T', 'CbO'], ['mutT'], ['mutT', 'not'])):
                 if (ti + pi_) % 2 == 0:
                     objs2 = ['r%d' % i for i in range(n)]
                     attrs2 = ['z%d' % j for j in range(m)]
@@ -103,6 +142,70 @@ def _history_cases(rng, tier):
                 # permuting the existing names is a renaming too
                 yield dict(stream='history', k='ctx', be=be, rows=rows, objs0=OBJ[:n], attrs0=ATT[:m], pre=pre,
                            objs=OBJ[:n][::-1], attrs=ATT[:m][::-1], so=[list(range(n))], sa=[list(range(m))])
+
+
+def _big_cases(rng, tier, boost):
+    reps = 1 if tier == 'quick' and not boost else 4
+    for rep in range(reps):
+        for (n, m) in BIG_CTX:
+            rows = _dense_table(rng, n, m)
+            pi, sg = list(range(n)), list(range(m))
+            rng.shuffle(pi)
+            rng.shuffle(sg)
+            sels = ([G.random_sel(rng, n) for _ in range(4)] + [[], list(range(n)), [n - 1]],
+                    [G.random_sel(rng, m) for _ in range(4)] + [[], list(range(m)), [m - 1]])
+            kind = 'tricky' if max(n, m) <= 11 and rng.random() < 0.5 else 'not'
+            objs, attrs = _names(kind, n, m, off=rng.randrange(len(TRICKY)))
+            for be in BACKENDS:
+                yield dict(stream='big', k='ctx', be=be, rows=rows, objs=objs, attrs=attrs, so=sels[0], sa=sels[1])
+                yield dict(stream='big', k='conv', be=be, rows=rows, objs=objs, attrs=attrs, so=sels[0], sa=sels[1],
+                           pi=pi, sigma=sg)
+                if (n, m) in BIG_LAT:
+                    for algo in ALGOS_X:
+                        yield dict(stream='big', k='lat', be=be, rows=rows, algo=algo, objs=objs, attrs=attrs)
+                    for algo in ALGOS:
+                        yield dict(stream='big', k='perm', be=be, rows=rows, algo=algo, pi=pi, sigma=sg, objs=objs, attrs=attrs)
+    # the conversions on small tables as well (cheap)
+    for rows in ([[1, 0, 1], [1, 1, 0]], [[1, 0], [0, 1], [1, 1]], [[1]], [[0, 1, 1, 0]], G.random_table(rng, 5, 5)):
+        n, m = len(rows), len(rows[0])
+        pi, sg = list(range(n))[::-1], list(range(m))[1:] + [0]
+        for be in BACKENDS:
+            yield dict(stream='big', k='conv', be=be, rows=rows, objs=OBJ[:n], attrs=_names('tricky', n, m, off=n + m)[1],
+                       so=[[], [0]], sa=[[], [0]], pi=pi, sigma=sg)
+
+
+# how the lattice under test is obtained (all but 'default' leave the order caches lazy or fill them differently)
+LPATHS = ('default', 'CbO', 'Lindig+ext', 'Lindig+int', 'list', 'json', 'TT', 'TofKT')
+QUERIES = ('parents', 'children', 'ancestors', 'descendants', 'trace_up', 'trace_down', 'leq')
+
+
+def _lhist_cases(rng, tier, boost):
+    tables = [[[1, 0, 1], [1, 1, 0], [0, 1, 1]], [[1, 0, 0], [1, 1, 0], [1, 1, 1]], [[1, 0], [0, 1], [1, 1]],
+              [[1, 1, 0, 0], [0, 1, 1, 0], [0, 0, 1, 1], [1, 0, 0, 1]]]
+    for _ in range(4 if tier == 'quick' and not boost else 30):
+        n, m = rng.randint(3, 6), rng.randint(3, 6)
+        tables.append(_dense_table(rng, n, m))
+    tables.append(_dense_table(rng, 9, 8))
+    for ti, rows in enumerate(tables):
+        n, m = len(rows), len(rows[0])
+        be = BACKENDS[ti % 3]
+        objs, attrs = OBJ[:n], _names('not', n, m)[1]
+        base = dict(stream='lhist', k='lhist', be=be, rows=rows, objs=objs, attrs=attrs)
+        for path in LPATHS:
+            # one partial query of each kind, at a few positions (the single-query histories are the ones a
+            # "hand over what is cached" shortcut gets wrong)
+            for q in QUERIES:
+                for pos in (1, 2, rng.randrange(64)):
+                    yield dict(base, path=path, ops=[[q, pos, rng.randrange(64)]], order=rng.choice(('cp', 'pc')))
+            # net-zero and genuine mutations, dictionary reads, hostile mutation of returned dictionaries
+            for ops in ([['readd', 1, 1]], [['readd', 2, 0]], [['remove', 1, 0]], [['remove', 2, 0], ['parents', 1, 0]],
+                        [['children_dict', 0, 0], ['readd', 3, 1]], [['parents_dict', 0, 0]], [['mutate_dicts', 0, 0]],
+                        [['T', 0, 0], ['readd', 1, 0]], [['T', 0, 0], ['parents', 2, 0], ['remove', 3, 0]]):
+                yield dict(base, path=path, ops=ops, order=rng.choice(('cp', 'pc')))
+            for _ in range(3 if tier == 'quick' and not boost else 10):
+                ops = [[rng.choice(QUERIES + ('readd', 'remove', 'children_dict', 'T', 'mutate_dicts')),
+                        rng.randrange(64), rng.randrange(64)] for _ in range(rng.randint(2, 5))]
+                yield dict(base, path=path, ops=ops, order=rng.choice(('cp', 'pc')))
 
 
 def gen(tier, seed, boost=False):
@@ -132,6 +235,11 @@ def gen(tier, seed, boost=False):
                     for sg in itertools.permutations(range(m)):
                         yield dict(stream='exhaustive', k='perm', be=be, rows=rows, algo=algo, pi=list(pi), sigma=list(sg),
                                    objs=OBJ[:n], attrs=tattrs)
+    # ---- shape extremes (>= 64 cells, two-digit indexes), every backend, backend conversions of derived contexts,
+    #      lattices of K and K.T by every algorithm variant ---------------------------------------------------
+    yield from _big_cases(random.Random(seed * 104729 + 6), tier, boost)
+    # ---- lattices built by non-default paths, partially queried / mutated, then transposed ----------------
+    yield from _lhist_cases(random.Random(seed * 15485863 + 6), tier, boost)
     # ---- seeded random larger cases ------------------------------------------------------------
     big = 6 if tier == 'quick' else 7
     nrand = 60 if tier == 'quick' else 700
@@ -151,7 +259,7 @@ def gen(tier, seed, boost=False):
             perms.append((pi, sg))
         for be in BACKENDS:
             yield _ctx_case(rows, be, rng.choice(('plain', 'not', 'tricky', 'tricky')), 'random', sels, off=rng.randrange(len(TRICKY)))
-            for algo in ALGOS:
+            for algo in (None, 'CbO', rng.choice(('Lindig+ext', 'Lindig+int'))):
                 tobjs, tattrs = _names(rng.choice(('not', 'tricky', 'tricky')), n, m, off=rng.randrange(len(TRICKY)))
                 yield dict(stream='random', k='lat', be=be, rows=rows, algo=algo, objs=tobjs, attrs=tattrs)
                 for pi, sg in perms:
@@ -204,9 +312,131 @@ def _try(f):
 
 @functools.lru_cache(maxsize=64)
 def _lattice_of(rows_key, be, objs, attrs, algo):
-    from fcapy.lattice import ConceptLattice
     K = _mk(rows_key, be, objs, attrs)
-    return K, ConceptLattice.from_context(K, algo=algo)
+    return K, _from_context(K, algo)
+
+
+def _rel(d, k):
+    return [sorted(ints(d[i])) for i in range(k)]
+
+
+def _jlat_full(L, order='cp'):
+    # elements + the four relation dictionaries; `order` = which of children / parents is read first
+    k = len(L)
+    if order == 'pc':
+        par = _rel(L.parents_dict, k)
+    j = _jlat(L)
+    if order != 'pc':
+        par = _rel(L.parents_dict, k)
+    return dict(j, parents=par, desc=_rel(L.descendants_dict, k), anc=_rel(L.ancestors_dict, k))
+
+
+def _conv(D, b2, form):
+    from fcapy.context import FormalContext
+    data = D.data if form == 'table' else D.data.data
+    return FormalContext(data, object_names=list(D.object_names), attribute_names=list(D.attribute_names), backend=b2)
+
+
+def _impl_conv(c):
+    K = _mk(c['rows'], c['be'], c['objs'], c['attrs'])
+    out = {}
+    srcs = {'T': lambda: K.T, 'not': lambda: ~K, 'get': lambda: K[list(c['pi']), list(c['sigma'])],
+            'TT': lambda: K.T.T, 'self': lambda: K}
+    for src, f in srcs.items():
+        D = _try(f)
+        if isinstance(D, dict):
+            out[src] = D
+            continue
+        out[src] = _try(lambda: _jctx(D))
+        for b2 in BACKENDS:
+            for form in ('raw', 'table'):
+                key_ = f'{src}>{SHORT[b2]}:{form}'
+
+                def one():
+                    K2 = _conv(D, b2, form)
+                    r = dict(ctx=_jctx(K2))
+                    if src == 'T':
+                        r['t_ext'] = [ints(K2.extension_i(list(A))) for A in c['so']]
+                        r['t_int'] = [ints(K2.intention_i(list(B))) for B in c['sa']]
+                        r['back'] = _jctx(K2.T)
+                        r['back_eq'] = bool(K2.T == K)
+                    return r
+                out[key_] = _try(one)
+    return out
+
+
+def _build_lattice(K, path):
+    from fcapy.lattice import ConceptLattice
+    if path == 'default':
+        return _from_context(K, None)
+    if path in ('CbO', 'Lindig+ext', 'Lindig+int'):
+        return _from_context(K, path)
+    L0 = _from_context(K, 'CbO')
+    if path == 'list':      # a plain, unsorted list of concepts
+        cs = list(L0)
+        cs = cs[1::2] + cs[0::2][::-1]
+        return ConceptLattice(cs)
+    if path == 'json':
+        if len(L0) < 3:
+            return L0
+        return ConceptLattice.read_json(json_data=L0.write_json(list(K.object_names), list(K.attribute_names)))
+    if path == 'TT':
+        return L0.T.T
+    if path == 'TofKT':     # a lattice of K obtained by transposing the lattice of K.T
+        return _from_context(K.T, 'CbO').T
+    raise ValueError(path)
+
+
+def _impl_lhist(c):
+    K = _mk(c['rows'], c['be'], c['objs'], c['attrs'])
+    L = _try(lambda: _build_lattice(K, c['path']))
+    if isinstance(L, dict):
+        return {'build': L}
+    removed, log = [], []
+    for op, a, b in c['ops']:
+        k = len(L)
+
+        def inner():
+            tb = {L.top, L.bottom}
+            return [i for i in range(k) if i not in tb]
+
+        def run():
+            i, j = a % k, b % k
+            if op in ('parents', 'children', 'ancestors', 'descendants'):
+                getattr(L, op)(i)
+            elif op == 'leq':
+                L.leq_elements(i, j)
+            elif op in ('trace_up', 'trace_down'):
+                L.trace_element(L[i], 'up' if op == 'trace_up' else 'down')
+            elif op in ('children_dict', 'parents_dict'):
+                getattr(L, op)
+            elif op == 'T':
+                L.T
+            elif op == 'mutate_dicts':
+                d = L.parents_dict
+                d.clear()
+                d2 = L.children_dict
+                d2[0] = frozenset({k + 7})
+                d3 = L.descendants_dict
+                d3.pop(0, None)
+            elif op in ('readd', 'remove'):
+                cand = inner()
+                if not cand:
+                    return 'skip'
+                x = L[cand[a % len(cand)]]
+                L.remove(x)
+                if op == 'readd':
+                    L.add(x, fill_up_cache=bool(b % 2))
+                else:
+                    removed.append([ints(x.extent_i), ints(x.intent_i)])
+            return 'ok'
+        r = _try(run)
+        log.append(r if isinstance(r, str) else r)
+    out = {'log': log, 'removed': removed}
+    LT = _try(lambda: L.T)
+    out['LT'] = LT if isinstance(LT, dict) else _try(lambda: _jlat_full(LT, c.get('order', 'cp')))
+    out['L'] = _try(lambda: _jlat_full(L))
+    return out
 
 
 def _eq(a, b):
@@ -225,6 +455,14 @@ def impl(c):
             for step in c['pre']:
                 if step == 'T':
                     _try(lambda: K.T.T)
+                elif step == 'mutT':
+                    # hostile but legal: rename / complement the RETURNED transposed context; K must not notice
+                    def mut():
+                        KT = K.T
+                        KT.object_names = ['zz%d' % i for i in range(len(KT.object_names))]
+                        KT.attribute_names = ['yy%d' % i for i in range(len(KT.attribute_names))]
+                        ~KT
+                    _try(mut)
                 elif step == 'not':
                     _try(lambda: ~K)
                 else:
@@ -250,15 +488,19 @@ def impl(c):
         out['deriv'] = _try(derivs)
         return out
     algo = c.get('algo')
+    if c['k'] == 'conv':
+        return _impl_conv(c)
+    if c['k'] == 'lhist':
+        return _impl_lhist(c)
     if c['k'] == 'lat':
         K = _mk(rows, be, c['objs'], c['attrs'])
         out = {'hash': int(K.hash_fixed())}
-        L = _try(lambda: ConceptLattice.from_context(K, algo=algo))
+        L = _try(lambda: _from_context(K, algo))
         out['L'] = L if isinstance(L, dict) else _jlat(L)
         out['LT'] = _try(lambda: _jlat(L.T))
-        out['L2'] = _try(lambda: _jlat(ConceptLattice.from_context(K.T, algo=algo)))
-        out['Lneg'] = _try(lambda: _jlat(ConceptLattice.from_context(~K, algo=algo)))
-        out['LM'] = _try(lambda: _jlat(ConceptLattice.from_context(K, algo=algo, is_monotone=True)))
+        out['L2'] = _try(lambda: _jlat(_from_context(K.T, algo)))
+        out['Lneg'] = _try(lambda: _jlat(_from_context(~K, algo)))
+        out['LM'] = _try(lambda: _jlat(_from_context(K, algo, is_monotone=True)))
         return out
     if c['k'] == 'get':
         K = _mk(rows, be, c['objs'], c['attrs'])
@@ -275,7 +517,7 @@ def impl(c):
         out['P'] = P
         return out
     out['P'] = _jctx(P)
-    out['LP'] = _try(lambda: _jlat(ConceptLattice.from_context(P, algo=algo)))
+    out['LP'] = _try(lambda: _jlat(_from_context(P, algo)))
     return out
 
 
@@ -293,6 +535,22 @@ def requests(c, io):
     if c['k'] == 'ctx':
         rs = [dict(base, op='C06.ctx', kind=k) for k in ('T', 'TT', 'not', 'notnot')]
         rs.append(dict(op='C06.deriv', be=SHORT[c['be']], rows=c['rows'], w=w, selsObj=c['so'], selsAttr=c['sa']))
+        return rs
+    if c['k'] == 'conv':
+        rs = [dict(base, op='C06.ctx', kind='T'), dict(base, op='C06.ctx', kind='not'),
+              dict(base, op='C06.ctx', kind='get', pi=c['pi'], sigma=c['sigma']),
+              dict(op='C06.deriv', be=SHORT[c['be']], rows=c['rows'], w=w, selsObj=c['so'], selsAttr=c['sa'])]
+        return rs
+    if c['k'] == 'lhist':
+        rs = []
+        for key_, tr in (('LT', True), ('L', False)):
+            X = io.get(key_)
+            if X is None or _bad(X):
+                continue
+            rem = [[p[1], p[0]] for p in io['removed']] if tr else io['removed']
+            rs.append(dict(op='C06.order', rows=c['rows'], w=w, transposed=tr,
+                           L=dict(concepts=X['concepts'], children=X['children']), parents=X['parents'],
+                           desc=X['desc'], anc=X['anc'], removed=rem))
         return rs
     if c['k'] == 'lat':
         if any(_bad(io.get(k)) for k in ('L', 'L2', 'Lneg', 'LM')):
@@ -437,6 +695,8 @@ def _judge_lat(c, io, rep):
         return _fail('correspondence', 'ConceptLattice.T vs model', diff)
     # monotone lattice
     LM = io['LM']
+    if not rM.get('oracles_agree', True):
+        return _fail('harness', 'monoConcepts oracles', 'brute-force and complement-based enumeration disagree (contradicts theorem)')
     if not rM['LM_ok']:
         return _fail('property', 'monotone lattice concept set',
                      f'{sorted(_pairs(LM))} is not the set of monotone concepts ({rM["n_mono"]} of them)')
@@ -494,9 +754,88 @@ def _judge_get(c, io, rep):
     return dict(ok=True)
 
 
+def _judge_conv(c, io, rep):
+    rT, rN, rG, rD = rep
+    n, m = len(c['rows']), len(c['rows'][0])
+    rows0 = [[int(v) for v in r] for r in c['rows']]
+    objs, attrs = list(c['objs']), list(c['attrs'])
+    want = {'T': (rT['spec'], attrs, objs), 'TT': (rows0, objs, attrs), 'self': (rows0, objs, attrs),
+            'get': (rG['spec'], [objs[i] for i in c['pi']], [attrs[j] for j in c['sigma']])}
+    if 'ok' in rN['res']:
+        want['not'] = (rN['spec'], objs, rN['res']['ok']['attrs'])
+    for key_ in sorted(io):
+        got = io[key_]
+        src = key_.split('>')[0]
+        if _bad(got):
+            return _fail('property', key_, f'implementation raised {got}')
+        if src not in want:
+            continue
+        wrows, wobjs, wattrs = want[src]
+        ctx = got if '>' not in key_ else got['ctx']
+        if ctx['rows'] != wrows or ctx['objs'] != wobjs or ctx['attrs'] != wattrs \
+                or ctx['h'] != len(wobjs) or ctx['w'] != len(wattrs):
+            return _fail('property', key_, f'table {ctx["rows"]} / names {ctx["objs"]}, {ctx["attrs"]} of the '
+                                           f'(converted) context differ from {wrows} / {wobjs}, {wattrs}')
+        if '>' in key_:
+            b2 = key_.split('>')[1].split(':')[0]
+            if ctx['be'] != b2:
+                return _fail('property', key_, f'backend {ctx["be"]} instead of {b2}')
+            if src == 'T':
+                if got['t_ext'] != rD['spec_int'] or got['t_int'] != rD['spec_ext']:
+                    return _fail('property', key_ + ' derivations',
+                                 f'extension_i {got["t_ext"]} / intention_i {got["t_int"]} of the converted K.T are not '
+                                 f'the exchanged prime sets {rD["spec_int"]} / {rD["spec_ext"]} of K')
+                back = got['back']
+                if back['rows'] != rows0 or back['objs'] != objs or back['attrs'] != attrs or got['back_eq'] is not True:
+                    return _fail('property', key_ + ' .T', f'transposing back gives {back} (== K: {got["back_eq"]})')
+    if rD['t_ext'] != rD['spec_int'] or rD['t_int'] != rD['spec_ext']:
+        return _fail('harness', 'conv model', 'model derivations differ from the spec')
+    return dict(ok=True)
+
+
+def _judge_lhist(c, io, rep):
+    if 'build' in io:
+        return _fail('property', 'building the lattice (%s)' % c['path'], f'implementation raised {io["build"]}')
+    for r in io['log']:
+        if isinstance(r, dict):
+            return _fail('property', 'lattice operation', f'implementation raised {r} in {c["ops"]}')
+    for key_ in ('LT', 'L'):
+        if _bad(io[key_]):
+            return _fail('property', 'L.T after the history' if key_ == 'LT' else 'reading L after the history',
+                         f'implementation raised {io[key_]}')
+    rLT, rL = rep
+    LT, L = io['LT'], io['L']
+    # the transposed lattice: extents and intents exchanged, element by element
+    if [(x['ii'], x['ei'], x['i'], x['e']) for x in L['concepts']] != [(x['ei'], x['ii'], x['e'], x['i']) for x in LT['concepts']]:
+        return _fail('property', 'L.T elements', 'the concepts of L.T are not the concepts of L with extent and intent exchanged')
+    # ... and its order is the order of extent inclusion of the transposed table = the reversed order
+    for flag, what in (('all_concepts', 'elements of L.T are concepts of the transposed table'),
+                       ('complete', 'L.T lists all concepts of the transposed table (minus the removed ones)'),
+                       ('children_ok', 'children of L.T are the lower covers'),
+                       ('parents_ok', 'parents of L.T are the upper covers'),
+                       ('desc_ok', 'descendants of L.T are the strictly smaller elements'),
+                       ('anc_ok', 'ancestors of L.T are the strictly larger elements')):
+        if not rLT[flag]:
+            return _fail('property', what, f'rejected by the Lean oracle; L.T = {str(LT)[:600]}')
+    # the lattice itself after the history (properties C09/C11 are about this; reported here because C06 builds on it)
+    for flag in ('all_concepts', 'complete', 'children_ok', 'parents_ok', 'desc_ok', 'anc_ok'):
+        if not rL[flag]:
+            return _fail('property', 'L after the history: ' + flag, f'rejected by the Lean oracle; L = {str(L)[:600]}')
+    return dict(ok=True)
+
+
 def judge(c, io, rep):
     if c['k'] == 'get':
         return _judge_get(c, io, rep)
+    if c['k'] == 'conv':
+        if len(rep) != 4:
+            return _fail('harness', 'conv', 'missing replies')
+        return _judge_conv(c, io, rep)
+    if c['k'] == 'lhist':
+        if len(rep) != 2:
+            bad = {k: v for k, v in io.items() if _bad(v)}
+            return _fail('property', 'lattice history', f'implementation raised {str(bad)[:400]} in {c["path"]} {c["ops"]}')
+        return _judge_lhist(c, io, rep)
     want = {'ctx': 5, 'lat': 2, 'perm': 2}[c['k']]
     if len(rep) != want:
         bad = {k: v for k, v in io.items() if _bad(v)}
@@ -507,7 +846,7 @@ def judge(c, io, rep):
 def nontrivial(c):
     if not G.is_mixed(c['rows']):
         return False
-    if c['k'] in ('perm', 'get'):
+    if c['k'] in ('perm', 'get', 'conv'):
         return c['pi'] != sorted(c['pi']) or c['sigma'] != sorted(c['sigma'])
     return True
 
@@ -521,6 +860,12 @@ def branch(c, io, rep):
     tags = [c['stream'], f"{c['k']}:{c['be']}" + (f":{c.get('algo') or 'default'}" if c['k'] in ('lat', 'perm') else ''), f'size:{n}x{m}']
     if c['k'] == 'get':
         tags.append('get:' + (io['P']['err'] if _bad(io['P']) else 'ok'))
+    if c['k'] == 'lhist':
+        tags += ['lhist-path:' + c['path']] + ['lhist-op:' + o[0] for o in c['ops']]
+        if n * m >= 64:
+            tags.append('lhist:>=64cells')
+    if c['stream'] == 'big':
+        tags.append('big:%s:%s' % (c['k'], '>=64cells' if n * m >= 64 else 'small'))
     if c['k'] == 'lat' and not _bad(io.get('L')):
         tags.append('concepts:%d' % min(len(io['L']['concepts']), 33) if len(io['L']['concepts']) < 33 else 'concepts:33+')
     if c['k'] == 'ctx':
@@ -533,7 +878,7 @@ def branch(c, io, rep):
 
 
 def signature(c, io, rep, v):
-    return f"C06:{c['k']}:{c['be']}:{c.get('algo') or 'default'}:{v.get('kind')}:{v.get('what', '?')}"
+    return f"C06:{c['k']}:{c['be']}:{c.get('algo') or c.get('path') or 'default'}:{v.get('kind')}:{v.get('what', '?')}"
 
 
 def shrink(c):
@@ -567,7 +912,11 @@ def shrink(c):
             if len(c[key_]) > 1:
                 for i in range(len(c[key_])):
                     yield dict(c, **{key_: c[key_][:i] + c[key_][i + 1:]})
-    if c['k'] == 'perm':
+    if c['k'] == 'lhist':
+        for i in range(len(c['ops'])):
+            if len(c['ops']) > 1:
+                yield dict(c, ops=c['ops'][:i] + c['ops'][i + 1:])
+    if c['k'] in ('perm', 'conv'):
         if c['pi'] != sorted(c['pi']):
             yield dict(c, pi=sorted(c['pi']))
         if c['sigma'] != sorted(c['sigma']):
